@@ -17,6 +17,7 @@ import (
 	"strings"
 	"testing"
 
+	"github.com/33cn/chain33/common"
 	"github.com/33cn/chain33/common/address"
 	"github.com/33cn/chain33/common/crypto"
 	"github.com/33cn/chain33/common/log/log15"
@@ -189,11 +190,15 @@ func (w who) addr() string {
 
 // txSpec is the plain-data description of one transaction.
 type txSpec struct {
-	From   who   `json:"from"`
-	To     *who  `json:"to,omitempty"` // nil: a "none" notary transaction to the executor address
-	Pay    int   `json:"pay"`          // payload / note bytes
-	Expire int64 `json:"expire,omitempty"`
-	Nonce  int64 `json:"nonce"`
+	From who  `json:"from"`
+	To   *who `json:"to,omitempty"` // nil: a "none" notary transaction to the executor address
+	Pay  int  `json:"pay"`          // payload / note bytes
+	// Via says where the account in To is written: "" coins transfer (tx.To), "evmAddr" evm action ContractAddr,
+	// "evmPara" 20-byte evm Para.  For the evm forms tx.To is the evm executor address, or the ordinary account ToAcct.
+	Via    string `json:"via,omitempty"`
+	ToAcct *who   `json:"to_acct,omitempty"`
+	Expire int64  `json:"expire,omitempty"`
+	Nonce  int64  `json:"nonce"`
 }
 
 var bigBuf = bytes.Repeat([]byte{0x5a}, types.MaxTxSize)
@@ -204,6 +209,19 @@ func (s txSpec) build(cfg *types.Chain33Config, sign bool) *types.Transaction {
 		tx.Execer = []byte("none")
 		tx.Payload = bigBuf[:s.Pay]
 		tx.To = address.ExecAddress("none")
+	} else if s.Via != "" {
+		tx.Execer = []byte("evm")
+		act := &types.EVMContractAction4Chain33{GasLimit: 100000, GasPrice: 1, Code: bigBuf[:s.Pay]}
+		if s.Via == "evmAddr" {
+			act.ContractAddr, act.Para = s.To.addr(), []byte("calldata-not-20-bytes-long")
+		} else {
+			act.ContractAddr, act.Para = address.ExecAddress("evm"), raw20(*s.To)
+		}
+		tx.Payload = types.Encode(act)
+		tx.To = address.ExecAddress("evm")
+		if s.ToAcct != nil {
+			tx.To = s.ToAcct.addr()
+		}
 	} else {
 		tx.Execer = []byte("coins")
 		tr := &types.AssetsTransfer{Amount: 1, To: s.To.addr(), Note: bigBuf[:s.Pay]}
@@ -212,6 +230,19 @@ func (s txSpec) build(cfg *types.Chain33Config, sign bool) *types.Transaction {
 	}
 	signTx(tx, s.From, sign)
 	return tx
+}
+
+// raw20 is the 20-byte form of an account (eth: the address bytes, base58: its hash160).
+func raw20(w who) []byte {
+	if w.Eth {
+		b, _ := common.FromHex(accts[w.K].eth)
+		return b
+	}
+	a, err := address.NewBtcAddress(accts[w.K].btc)
+	if err != nil {
+		panic(err)
+	}
+	return a.Hash160[:]
 }
 
 var dummySig = bytes.Repeat([]byte{0x30}, 70)
@@ -241,7 +272,7 @@ type item struct {
 func (it *item) build(cfg *types.Chain33Config, blocked map[who]bool, sign bool) {
 	it.touch = false
 	for _, s := range it.Txs {
-		if blocked[s.From] || (s.To != nil && blocked[*s.To]) {
+		if blocked[s.From] || (s.To != nil && blocked[*s.To]) || (s.ToAcct != nil && blocked[*s.ToAcct]) {
 			it.touch = true
 		}
 	}
@@ -313,6 +344,25 @@ func genTxSpec(t *rapid.T, pay int, blocked []who, nonce *int64) txSpec {
 			s.From = b
 		} else {
 			s.To = &b
+		}
+	}
+	// the account may sit in an evm payload instead of tx.To; tx.To is then free (executor address or an unblocked account)
+	if s.To != nil {
+		s.Via = rapid.SampledFrom([]string{"", "", "evmAddr", "evmPara"}).Draw(t, "via")
+		if s.Via != "" && rapid.Bool().Draw(t, "freeTo") {
+			a := genWho(t, "toAcct")
+			for free := false; !free; {
+				free = true
+				for _, b := range blocked {
+					free = free && b != a
+				}
+				if !free {
+					if a.Eth = !a.Eth; !a.Eth {
+						a.K = (a.K + 1) % nKeys
+					}
+				}
+			}
+			s.ToAcct = &a
 		}
 	}
 	return s
@@ -675,6 +725,13 @@ func runBlockCase(t lib.TB, c *blockCase) {
 	lib.Class("regime_" + c.Regime)
 	if active {
 		lib.Class("blacklist_active")
+	}
+	for _, it := range items {
+		for _, sp := range it.Txs {
+			if sp.Via != "" && sp.ToAcct != nil && bl[*sp.To] && !bl[sp.From] {
+				lib.Class("touching_via_evm_payload_with_ordinary_to")
+			}
+		}
 	}
 	if hasTouch {
 		lib.Class("has_touching_item")
